@@ -19,6 +19,11 @@ def main():
         json.dump(out, sys.stdout, default=repr)
     elif req['op'] == 'bounded':
         mod = importlib.import_module(req['enumerator'])
+        if req.get('replay') is not None:
+            fn, conv = mod.CHECKS[req['part']]
+            ev, nt, fails = fn([conv(req['replay'])])
+            json.dump({'failures': fails, 'evaluations': ev}, sys.stdout, default=repr)
+            return
         res = mod.run(REG, req.get('tier', 'quick'), int(req.get('seed', 0)), req.get('jobs', 16))
         json.dump(res, sys.stdout, default=repr)
 
